@@ -1,5 +1,6 @@
 import Aergo.Model.DriverLib
 import Aergo.Model.Gov
+import Aergo.Model.GovNode
 
 /-! Model driver for C15: `model-c15 < ops > out`.
 
@@ -12,6 +13,12 @@ Session ops (bytes in hex, `-` = empty; answer `<result> | <canonical state>`):
   transfer <src> <dst> <amount>
   namecreate <sender> <name> <amount> | nameupdate <txAccount> <sender> <name> <to> <amount> | setowner <owner>
   endblock | restart
+Node-level sessions (Aergo.Model.GovNode; a tx is one of the transaction lines above, `;`-separated, `-` = none):
+  nnew <forkVersion> <genesis producer ids>        a DPoS genesis (zero tallies for the genesis producers)
+  ev own <txs> | ev stale <txs>                    -> `<one bit per candidate: executed?> | <state>`
+  ev net <txs> | ev netfail <txs>                  -> `ok | <state>` / `fail | <state>`
+  ev reorg <k> <failAt|-> <txs / txs / ..>         -> `ok | <state>` / `fail | <state>`
+  ev restart
 Pure ops:
   less <candA> <amtA> <candB> <amtB>        -> `<Less(a,b)> <Less(b,a)>` or `panic`
   rank <cand:amt,cand:amt,..>               -> the sorted list (ties in canonical order)
@@ -79,7 +86,8 @@ def showState (s : St) : String :=
   let p := joinC (daoIssues.map fun i => s!"{issueName i}:{s.param i}")
   let np := joinC (daoIssues.map fun i => s!"{issueName i}:{match s.nextParams.get i with | some v => v | none => s.param i}")
   let bl := sortStr ((s.bal.filter fun e => e.2 != 0).map fun e => s!"{hex e.1}:{e.2}")
-  s!"T={s.total} st=[{joinC st}] v=[{joinC vs}] {rk} vt=[{vt}] p=[{p}] np=[{np}] " ++
+  let rkr := joinC (((canonRank (rankCanon s.tally .bp)).take s.bpCount).map fun e => hex e.1)
+  s!"T={s.total} st=[{joinC st}] v=[{joinC vs}] {rk} rk=[{rkr}] vt=[{vt}] p=[{p}] np=[{np}] " ++
   s!"vm={showVpr s.vpr true} vd={showVpr (loadVpr s.vprDisk) false} nm=[{showNames s.names}] ni=[{showNames s.namesInit}] b=[{joinC bl}]"
 
 def showRes : Res → String
@@ -176,7 +184,59 @@ def applyOp (s : St) (o : Op) : St × String :=
   let (r, s') := step s o
   if r = .panic then (s', "panic") else (s', showRes r ++ " | " ++ showState s')
 
-def c15Step (s : St) (line : String) : St × String :=
+/-- One transaction line as an operation. -/
+def parseTx (ws : List String) : Option Op :=
+  match ws with
+  | ["stake", a, h, amt] => do pure (.stake (← unhex a) (← h.toNat?) (← amt.toNat?))
+  | ["unstake", a, h, amt] => do pure (.unstake (← unhex a) (← h.toNat?) (← amt.toNat?))
+  | ["votebp", a, h, cs] => do pure (.voteBP (← unhex a) (← h.toNat?) (← parseList cs))
+  | ["votedao", a, h, id, args] => do pure (.voteDAO (← unhex a) (← h.toNat?) id (← parseList args))
+  | ["transfer", x, y, amt] => do pure (.transfer (← unhex x) (← unhex y) (← amt.toNat?))
+  | ["namecreate", a, n, amt] => do pure (.nameCreate (← unhex a) (← unhex n) (← amt.toNat?))
+  | ["nameupdate", t, sd, n, to, amt] => do pure (.nameUpdate (← unhex t) (← unhex sd) (← unhex n) (← unhex to) (← amt.toNat?))
+  | _ => none
+
+def parseTxs (s : String) : Option (List Op) :=
+  if s == "-" || s == " -" || s == "- " then some [] else (s.splitOn " ; ").mapM fun t => parseTx (words t)
+
+def showBits (l : List Bool) : String :=
+  if l.isEmpty then "-" else String.ofList (l.map fun b => if b then '1' else '0')
+
+/-- Node-level events. -/
+def evStep (n : Node) (kind : String) (rest : String) : Node × String :=
+  let bad := (n, "bad-op")
+  let fin (n' : Node) (res : String) : Node × String := (n', res ++ " | " ++ showState n'.cur)
+  match kind with
+  | "own" =>
+    match parseTxs rest with
+    | some txs => fin (n.step (.own txs)) (showBits (runTxs n.cur txs).2)
+    | none => bad
+  | "stale" =>
+    match parseTxs rest with
+    | some txs => fin (n.step (.stale txs)) (showBits (runTxs n.cur txs).2)
+    | none => bad
+  | "net" =>
+    match parseTxs rest with
+    | some txs => fin (n.step (.net txs)) "ok"
+    | none => bad
+  | "netfail" =>
+    match parseTxs rest with
+    | some txs => fin (n.step (.netFail txs)) "fail"
+    | none => bad
+  | "restart" => fin (n.step .restart) "ok"
+  | "reorg" =>
+    match rest.splitOn " " with
+    | k :: f :: bl =>
+      let failAt : Option (Option Nat) := if f == "-" then some none else f.toNat?.map some
+      match k.toNat?, failAt, ((" ".intercalate bl).splitOn " / ").mapM parseTxs with
+      | some k, some failAt, some blocks =>
+        if n.hist.length ≤ k then bad else
+        fin (n.step (.reorg k blocks failAt)) (if failAt.isSome then "fail" else "ok")
+      | _, _, _ => bad
+    | _ => bad
+  | _ => bad
+
+def c15StepSt (s : St) (line : String) : St × String :=
   let bad := (s, "bad-op")
   match words line with
   | ["new", fv] =>
@@ -241,4 +301,13 @@ def c15Step (s : St) (line : String) : St × String :=
   | "codec" :: ws => (s, codec ws)
   | _ => bad
 
-def main : IO UInt32 := DriverLib.run (St.init 2) c15Step
+def c15Step (n : Node) (line : String) : Node × String :=
+  match line.splitOn " " with
+  | ["nnew", fv, bps] =>
+    match fv.toNat?, parseList bps with
+    | some fv, some bps => let n' : Node := { cur := genesisWith fv bps, hist := [] }; (n', "ok | " ++ showState n'.cur)
+    | _, _ => (n, "bad-op")
+  | "ev" :: kind :: rest => evStep n kind (" ".intercalate rest)
+  | _ => let r := c15StepSt n.cur line; ({ n with cur := r.1 }, r.2)
+
+def main : IO UInt32 := DriverLib.run ({ cur := St.init 2, hist := [] } : Node) c15Step
